@@ -64,11 +64,13 @@ def t_compiled_excluded(d):
 
 def t_forced_excluded(d):
     files = {
-        "/r/m.c": ["#ifdef PRE", "@", "#endif", "@"],
+        "/r/m.c": ["#ifdef PRE", "@", "#endif", "@", "#ifdef PRE2", "@", "#endif"],
         "/r/pre.h": ["#define PRE", "#ifdef Z", "@", "#endif"],
         "/r/n.c": ["#ifdef PRE", "@", "#else", "@", "#endif"],
+        # a forced include without a source-file extension (never a member: members have a recognised extension)
+        "/r/prefix": ["#define PRE2", "@"],
     }
-    conf = {"p": [scen.entry("/r/m.c", ["Z"] if d[0] else [], [], ["pre.h"])],
+    conf = {"p": [scen.entry("/r/m.c", ["Z"] if d[0] else [], [], ["pre.h", "prefix"])],
             "q": [scen.entry("/r/n.c", [], [], ["pre.h"] if d[1] else [])]}
     return files, conf
 
@@ -131,6 +133,8 @@ def h_excl(m0: bool, m1: bool, m2: bool, m3: bool, m4: bool, d0: bool, d1: bool)
         names = sorted(files)
         if any(mb[len(names):]):
             return True
+        if any(mb[i] and "." not in n.rsplit("/", 1)[1] for i, n in enumerate(names)):
+            return True  # a file without an extension cannot be a member of a code base
         fs = scen.build_fs(files)
         members = [n for i, n in enumerate(names) if mb[i]]
         try:
@@ -138,7 +142,8 @@ def h_excl(m0: bool, m1: bool, m2: bool, m3: bool, m4: bool, d0: bool, d1: bool)
         except ref_cpp.Diagnostic:
             return True
         try:
-            st_all, _ = scen.run_cbi(fs, conf, names)
+            names_all = [n for n in names if "." in n.rsplit("/", 1)[1]]  # (everything that can be a member)
+            st_all, _ = scen.run_cbi(fs, conf, names_all)
             st_ex, _ = scen.run_cbi(fs, conf, members)
             a_all, _d1 = scen.attribution(st_all)
             a_ex, _d2 = scen.attribution(st_ex)
@@ -163,8 +168,8 @@ def h_excl(m0: bool, m1: bool, m2: bool, m3: bool, m4: bool, d0: bool, d1: bool)
                         {tuple(sorted(k)): v for k, v in got.items()}, {tuple(sorted(k)): v for k, v in want.items()})
                 else:
                     with memfs.mounted(fs):
-                        full = dict(st_all.get_setmap(memfs.FakeCodeBase(names)))
-                    removed = _setmap_from(a_all, scen.counted_lines(st_all), set(names) - set(members), plats)
+                        full = dict(st_all.get_setmap(memfs.FakeCodeBase(names_all)))
+                    removed = _setmap_from(a_all, scen.counted_lines(st_all), set(names_all) - set(members), plats)
                     for k in set(full) | set(removed) | set(got):
                         if full.get(k, 0) - removed.get(k, 0) != got.get(k, 0):
                             why = "set %s: all %d - excluded %d != %d" % (sorted(k), full.get(k, 0), removed.get(k, 0), got.get(k, 0))
